@@ -81,6 +81,23 @@ def contracts(c, args, ctx):
             if isinstance(x, tuple) and x[0] == "const" and x[1].endswith("SPECIFIC_CHARACTER_SET"): return core.Struct([BitVecVal(0x0008, 16), BitVecVal(0x0005, 16)])
             return x
         a, b = tg(args[0]), tg(args[1]); return And(a.f[0] == b.f[0], a.f[1] == b.f[1])
+    if re.fullmatch(r"<(dicom_core::)?VR as PartialEq>::ne", c):
+        return d(args[0]).variant != d(args[1]).variant
+    if re.fullmatch(r"<AttributeSelector as Clone>::clone", c): return args[0]
+    if re.fullmatch(r"(dicom_core::ops::)?AttributeSelector::iter", c): return core.SliceIter([core.Ref(core.Cell(x)) for x in d(d(args[0]).f[0]).items])
+    if re.fullmatch(r"<SmallVec<\[.*\]> as DerefMut>::deref_mut|<SmallVec<\[.*\]> as Deref>::deref", c): return d(args[0])
+    if re.fullmatch(r"core::slice::<impl \[.*\]>::get_mut::<usize>", c):
+        xs = d(args[0]).items; i = core.concrete_index(args[1])
+        return core.Enum("Some", [core.Ref(_ListSlot(xs, i))]) if i < len(xs) else core.Enum("None", [])
+    if re.fullmatch(r"core::slice::<impl \[.*\]>::last_mut", c):
+        xs = d(args[0]).items
+        return core.Enum("Some", [core.Ref(_ListSlot(xs, len(xs) - 1))]) if xs else core.Enum("None", [])
+    if re.fullmatch(r"SmallVec::<\[.*\]>::len", c): return len(d(args[0]).items)
+    if re.fullmatch(r"InMemDicomObject::<D>::new_empty_with_dict", c):
+        return core.Struct([BMap(), args[0], core.Struct([BitVecVal(0xFFFFFFFF, 32)]), False])
+    if re.fullmatch(r"(dicom_core::value::)?DataSetSequence::<.*>::length|<DataSetSequence<.*> as HasLength>::length", c): return d(args[0]).f[1]
+    if re.fullmatch(r"(dicom_core::value::)?DataSetSequence::<.*>::empty", c):
+        return core.Struct([core.VecV([]), core.Struct([BitVecVal(0xFFFFFFFF, 32)])])
     if re.fullmatch(r"<VR as PartialEq>::eq|<dicom_core::VR as PartialEq>::eq", c):
         a, b = d(args[0]), d(args[1])
         if not (hasattr(a, "variant") and hasattr(b, "variant")): raise core.NotEncodable("VR comparison of %r and %r" % (getattr(a, "f", a), getattr(b, "f", b)))
@@ -89,6 +106,15 @@ def contracts(c, args, ctx):
     if re.fullmatch(r"<Cow<'_, str> as Deref>::deref", c): return d(args[0])
     if re.search(r"Snafu(::<.*>)?::fail(::<.*>)?$", c): return core.Enum("Err", [("opaque", c[:40])])
     return NotImplemented
+
+
+class _ListSlot(core.Cell):
+    """a cell that aliases element i of a list"""
+    def __init__(self, xs, i): self.xs, self.i = xs, i
+    @property
+    def v(self): return self.xs[self.i]
+    @v.setter
+    def v(self, nv): self.xs[self.i] = nv
 
 
 class _Slot(core.Cell):
@@ -117,7 +143,12 @@ def run(rep, tier, seed, known, part):
     try:
         for action in (["Remove", "Empty", "SetVr", "Set", "SetIfMissing", "Replace", "SetStr"] if tier == "quick" else ["Remove", "Empty", "SetVr", "Set", "SetStr", "SetIfMissing", "SetStrIfMissing", "Replace", "ReplaceStr"]):
             for n_el in ((1, 2) if tier == "quick" else (0, 1, 2)):
+                if os.environ.get("C13_ONLY") == "nested": continue
                 one(rep, nat, LEAF, action, n_el)
+        APPLY = next(n for n in core.FNS if re.search(r"<impl at object/src/mem.rs:[^>]*>::apply$", n) and "InMemDicomObject" in core.FNS[n].ptext)
+        rep.functions += ["dicom_object::mem::InMemDicomObject::apply (selector navigation)", "dicom_core::header::DataElement::items_mut, dicom_core::ops::AttributeAction::is_constructive"]
+        for action in ("Set", "Replace", "Remove"):
+            nested(rep, nat, APPLY, action, tier)
     finally:
         nat.close()
         core.EXTRA_CONTRACTS[:] = []
@@ -259,6 +290,115 @@ def one(rep, nat, LEAF, action, n_el):
             rep.obligation(name, "violated", {"native": real, "instance": words})
         else:
             rep.inconclusive.append("C13 counterexample does not reproduce natively: %s -> %s (%s)" % (words, real, box.get("problems")))
+            rep.obligation(name, "inconclusive", {"native": real})
+    else:
+        rep.validated += 1
+        if not box.get("checked"): rep.inconclusive.append("vacuous: no path of '%s' reached the check" % name[:60])
+        rep.obligation(name, "holds", {"paths": res["paths"]})
+
+
+# ------------------------------------------------------------------ nested selectors (one level)
+def nested(rep, nat, APPLY, action, tier):
+    """selector  (sequence tag)[item].(leaf tag)  on an object that may hold that sequence with 0-1 items; the solver chooses whether the
+    sequence tag hits the stored sequence, a stored primitive element or nothing, and the item index 0..2"""
+    box = {}
+
+    def empty_obj(): return core.Struct([BMap(), core.Struct([]), core.Struct([BitVecVal(0xFFFFFFFF, 32)]), False])
+
+    def build(ctx):
+        n_items = pick(ctx, "n_items", 2)
+        seq_tag = core.Struct([BitVec("sg", 16), BitVec("se", 16)])
+        prim_tag = core.Struct([BitVec("pg", 16), BitVec("pe", 16)])
+        ctx.pc.append(Not(And(seq_tag.f[0] == prim_tag.f[0], seq_tag.f[1] == prim_tag.f[1])))
+        items = []
+        for k in range(n_items):
+            it = empty_obj(); items.append(it)
+        seqval = core.Enum("Sequence", [core.Struct([core.VecV(items), core.Struct([BitVecVal(0xFFFFFFFF, 32)])])]); seqval.idx = 1
+        seq_el = core.Struct([core.Struct([seq_tag, vr_enum("SQ"), core.Struct([BitVecVal(0xFFFFFFFF, 32)])]), seqval])
+        mp = BMap()
+        mp.items.append((seq_tag, seq_el))
+        mp.items.append((prim_tag, elem(prim_tag, "US", core.Enum("U16", [core.VecV([BitVec("pval", 16)])]))))
+        obj = core.Struct([mp, core.Struct([]), core.Struct([BitVecVal(0, 32)]), False])
+        sel_tag = core.Struct([BitVec("ng", 16), BitVec("ne", 16)])
+        idx = pick(ctx, "item", 3)
+        leaf = core.Struct([BitVec("lg", 16), BitVec("le", 16)])
+        newv = BitVec("newval", 16)
+        step0 = core.Enum("Nested", [sel_tag, BitVecVal(idx, 32)]); step0.idx = 1
+        step1 = core.Enum("Tag", [leaf]); step1.idx = 0
+        selector = core.Struct([core.VecV([step0, step1])])
+        arg = {"Set": [core.Enum("U16", [core.VecV([newv])])], "Replace": [core.Enum("U16", [core.VecV([newv])])], "Remove": []}[action]
+        act = core.Enum(action, arg); act.idx = ACTIONS.index(action)
+        op = core.Struct([selector, act])
+        r = core.run_fn(APPLY, [core.Ref(core.Cell(obj)), op], ctx)
+        constructive = action == "Set"
+        hits_seq = ctx.branch(And(sel_tag.f[0] == seq_tag.f[0], sel_tag.f[1] == seq_tag.f[1]))
+        hits_prim = (not hits_seq) and ctx.branch(And(sel_tag.f[0] == prim_tag.f[0], sel_tag.f[1] == prim_tag.f[1]))
+        problems = []
+        # the documented outcome
+        if hits_seq:
+            if idx < n_items: want = ("ok", idx, False)
+            elif idx == n_items and constructive: want = ("ok", idx, True)
+            else: want = ("err",)
+        elif hits_prim: want = ("err",)
+        else:
+            if constructive:
+                knows = ctx.branch(Bool("dict_knows"))
+                dvr = ["US", "LO", "SQ", "OB"][pick(ctx, "dict_vr", 4)] if knows else "UN"
+                want = ("err",) if dvr not in ("SQ", "UN") else (("created", dvr) if idx == 0 else ("err_after_create", dvr))
+            else: want = ("err",)
+        box["want"] = want
+        got_ok = r.variant == "Ok"
+        if want[0] in ("err", "err_after_create") and got_ok: problems.append("the operation succeeded, the documented outcome is an error")
+        if want[0] in ("ok", "created") and not got_ok: problems.append("the operation failed, the documented outcome is success")
+        # effects
+        stored = {("seq" if k is seq_tag else "prim" if k is prim_tag else "new"): v for k, v in mp.items}
+        if not constructive and not got_ok:
+            if len(mp.items) != 2: problems.append("a failing non-constructive action changed the set of attributes")
+            cur_items = core.seq_store(d(d(d(stored["seq"]).f[1]).f[0]).f[0])[0]
+            if len(cur_items) != n_items: problems.append("a failing non-constructive action changed the number of items")
+        if want[0] == "ok" and got_ok:
+            cur_items = core.seq_store(d(d(d(stored["seq"]).f[1]).f[0]).f[0])[0]
+            if len(cur_items) != n_items + (1 if want[2] else 0): problems.append("%d items afterwards, expected %d" % (len(cur_items), n_items + (1 if want[2] else 0)))
+            else:
+                tgt = d(cur_items[want[1]])
+                inner = d(tgt.f[0]).items
+                if action == "Set" and len(inner) != 1: problems.append("the addressed item holds %d attributes after Set, expected 1" % len(inner))
+                if action in ("Replace", "Remove") and len(inner) != 0: problems.append("the addressed (empty) item holds %d attributes after %s" % (len(inner), action))
+        if want[0] == "created" and got_ok:
+            if "new" not in stored: problems.append("the missing sequence was not created")
+            else:
+                nv = d(d(stored["new"]).f[1])
+                if nv.variant != "Sequence": problems.append("the created attribute is not a sequence")
+                elif len(core.seq_store(d(d(nv.f[0]).f[0]))[0]) != 1: problems.append("the created sequence does not hold exactly the new item")
+        box["problems"] = problems
+        box["checked"] = box.get("checked", 0) + 1
+        box["inst"] = (n_items, idx)
+        ctx.bad = BoolVal(bool(problems))
+        return ctx.bad
+
+    res = core.explore(build, max_paths=20000)
+    rep.nontrivial += res["paths"]
+    name = "%s through the selector (sequence tag)[item 0..2].(leaf tag) on an object holding a sequence of 0-1 items and a primitive element, all tags symbolic: outcome and effects as documented" % action
+    if res["violation"]:
+        model, vctx = res["violation"][0], res["violation"][2]
+        # the dictionary is a contract in the encoding: for the replay prefer a selector tag on which the real dictionary answers what the path assumed
+        # (an unknown tag when it assumed "not in the dictionary", ReferencedSeriesSequence when it assumed SQ)
+        for pref in ([BitVec("ng", 16) == 0x7776, BitVec("ne", 16) == 0x0411, Not(Bool("dict_knows"))], [BitVec("ng", 16) == 0x0008, BitVec("ne", 16) == 0x1115, Bool("dict_knows"), BitVec("dict_vr", 8) == 2]):
+            s2 = Solver(); s2.add(vctx.pc + [vctx.bad] + pref)
+            if s2.check() == sat: model = s2.model(); break
+        g = lambda nm, bits: model.eval(BitVec(nm, bits), model_completion=True).as_long()
+        n_items, idx = box["inst"]
+        words = ["apply_nested", action, n_items, "%04x%04x" % (g("sg", 16), g("se", 16)), "%04x%04x" % (g("pg", 16), g("pe", 16)), "%04x%04x" % (g("ng", 16), g("ne", 16)), idx, "%04x%04x" % (g("lg", 16), g("le", 16)), g("newval", 16)]
+        real = nat.ask(*words)
+        rp = rep.replay_file("c13_nested_%s" % action, "// engine=M case=c13 (nested)\n// native: %s   (action, items in the stored sequence, sequence tag, primitive tag, selector tag, item index, leaf tag, value)\n// encoding: %s (documented outcome %s)\n// real: %s\n" % (" ".join(map(str, words)), box.get("problems"), box.get("want"), real))
+        want = box.get("want", ("?",))
+        real_ok = real.startswith("OK")
+        bad = (want[0] in ("err", "err_after_create") and real_ok) or (want[0] == "ok" and not real_ok)
+        if bad or (real_ok and want[0] == "ok" and ("items=%d" % (n_items + (1 if want[2] else 0))) not in real):
+            rep.violations.append(("nested attribute operation %s: %s; real: %s" % (action, box.get("problems"), real), rp))
+            rep.obligation(name, "violated", {"native": real, "instance": words})
+        else:
+            rep.inconclusive.append("C13 nested counterexample does not reproduce natively: %s -> %s (%s, documented %s)" % (words, real, box.get("problems"), want))
             rep.obligation(name, "inconclusive", {"native": real})
     else:
         rep.validated += 1
